@@ -536,6 +536,10 @@ func (p *pathCtx) timeNow() value {
 	cur := ts.BvBin(OpBvAdd, ts.Zext(v, 32), ts.BV(base, 64))
 	if p.lastClock != nil {
 		p.assumeQuiet(ts.Cmp(OpBvUle, p.lastClock, cur))
+		if step, ok := p.ex.cfg.Params["CLOCKSTEP"]; ok {
+			// bounded time between two consecutive clock readings (CLOCKSTEP=0: a run faster than the clock's resolution)
+			p.assumeQuiet(ts.Cmp(OpBvUle, cur, ts.BvBin(OpBvAdd, p.lastClock, ts.BV(uint64(step), 64))))
+		}
 	}
 	p.lastClock = cur
 	p.nondets = append(p.nondets, nondetRec{Name: name, Kind: "env", Term: ts.Zext(v, 32)})
